@@ -1,4 +1,7 @@
-# sourced by ./check for C20: instrument the copy, place driver + kernel inside it
+# sourced by ./check for C20: instrument the copy, place driver + kernel inside it,
+# build the deterministic driver and the two free-running tiers
+cp -a "$SCR/repo" "$SCR/repo-pristine"
+rm -rf "$SCR/repo-pristine/verifsim"
 instrument conc
 mkdir -p "$SCR/repo/vkernel"
 cp "$VERIF"/kernel/*.go "$SCR/repo/vkernel/"
@@ -13,5 +16,20 @@ if ! c20build -tags "verif vsave"; then
 		fail "build of the C20 driver inside the instrumented copy failed"
 	fi
 	echo "note: saveOutputs entry point not available on this tree (see build log); driving FormatFile only" >&2
+fi
+# free-running tiers, with the race detector when cgo is available
+sed "s#=> /repo#=> $SCR/repo-pristine#" "$VERIF/go.mod" > "$SCR/pristine.mod"
+cp "$VERIF/go.sum" "$SCR/pristine.sum"
+freebuild() { # freebuild <modfile> <out> <pkg> <race flag...>
+	local mod="$1" out="$2" pkg="$3"; shift 3
+	(cd "$VERIF" && CGO_ENABLED=1 go build -trimpath "$@" -modfile="$mod" -o "$out" "$pkg") >"$SCR/build.log" 2>&1
+}
+if freebuild "$SCR/go.mod" "$SCR/bin/c20stub" ./c20/free/stub -race && freebuild "$SCR/pristine.mod" "$SCR/bin/c20real" ./c20/free/real -race; then
+	echo "on (-race, CGO_ENABLED=1)" > "$SCR/c20-race-note.txt"
+else
+	cp "$SCR/build.log" "$SCR/build-race.log"
+	(cd "$VERIF" && CGO_ENABLED=0 go build -trimpath -modfile="$SCR/go.mod" -o "$SCR/bin/c20stub" ./c20/free/stub) >"$SCR/build.log" 2>&1 || { cat "$SCR/build-race.log" "$SCR/build.log" >&2; fail "build of C20 tier 2 failed"; }
+	(cd "$VERIF" && CGO_ENABLED=0 go build -trimpath -modfile="$SCR/pristine.mod" -o "$SCR/bin/c20real" ./c20/free/real) >"$SCR/build.log" 2>&1 || { cat "$SCR/build.log" >&2; fail "build of C20 tier 3 failed"; }
+	echo "off: the race detector could not be built here ($(head -c 200 "$SCR/build-race.log" | tr '\n' ' ')); tiers 2 and 3 ran without it" > "$SCR/c20-race-note.txt"
 fi
 BUILD_DONE=1
